@@ -322,6 +322,22 @@ fn main() {
             println!("{}", json!({"histories": n, "events": cases, "builds_ok": 0, "builds_err": 0, "panics": 0,
                 "nontrivial_builds": 0, "distinct_forests": cases, "first_no": 0, "threads": 1}));
         }
+        "from-model" => {
+            // histories printed by TLC from Replay.tla (one JSON array per line)
+            let file = arg(&args, "--file").expect("--file");
+            let seed: u64 = arg(&args, "--seed").map(|s| s.parse().unwrap()).unwrap_or(1);
+            let threads: usize = arg(&args, "--threads").map(|s| s.parse().unwrap()).unwrap_or(1);
+            let first_no: usize = arg(&args, "--first").map(|s| s.parse().unwrap()).unwrap_or(0);
+            let out = arg(&args, "--out").expect("--out prefix");
+            let hs: Vec<hist::History> = std::fs::read_to_string(&file)
+                .unwrap()
+                .lines()
+                .filter(|l| !l.trim().is_empty())
+                .enumerate()
+                .map(|(k, l)| gen2::history_from_model(&serde_json::from_str(l).unwrap(), seed.wrapping_mul(7919).wrapping_add(k as u64)))
+                .collect();
+            run_many(&hs, threads, &exec::RunCfg::default(), &out, first_no);
+        }
         "replay" => {
             let file = arg(&args, "--hist").expect("--hist file");
             let out = arg(&args, "--out").expect("--out prefix");
